@@ -280,7 +280,7 @@ def config(sc, work, plug=PLUG):
         # a restart file written without particle variables can only restore the instance variables (the release file's columns
         # stay declared as state variables: undeclared columns are an error)
         pv = ["release_time", "src"] if sc["pvars"] else []
-        conf["warm_start"] = dict(filename=sc["warm"]["file"], variables=["age", "farm"] + pv + (["temp"] if sc["hasscal"] else []) + (["active"] if sc.get("out_active") else []))
+        conf["warm_start"] = dict(filename=sc["warm"]["file"], variables=["age", "farm"] + pv + (["temp"] if sc["hasscal"] else []) + (["active"] if sc.get("out_active") else []) + (["stamp"] if sc.get("stampvar") else []))
     return conf
 
 
